@@ -30,7 +30,7 @@ ASSUMPTIONS = [
 ]
 TIERS = {
     "quick": {"shards": 16, "cases": 60, "timeout": 600},
-    "thorough": {"shards": 16, "cases": 2000, "timeout": 7200},
+    "thorough": {"shards": 16, "cases": 10000, "timeout": 7200},
 }
 FLOORS = {
     "quick": {"programs": 700, "layouts_certified": 3000, "distinct_nontrivial": 150, "layouts_tiled": 500, "layouts_padded": 30, "existing_tsl_checked": 50},
